@@ -309,6 +309,33 @@ Theorem sympy_to_series_spec (P : poly W) n :
 Proof. unfold sympy_to_series. rewrite taylor_coeff. reflexivity. Qed.
 
 (* ------------------------------------------------------------------ *)
+(* an explicit symbols list is used in the user's order *)
+
+Lemma index_of_nth (l : list nat) : NoDup l -> forall i, i < length l -> index_of (nth i l 0) l = Some i.
+Proof.
+  induction 1 as [|x r Hx Hnd IH]; intros i Hi; cbn in *; [lia|].
+  destruct i as [|i].
+  - rewrite Nat.eqb_refl. reflexivity.
+  - destruct (x =? nth i r 0) eqn:E.
+    + apply Nat.eqb_eq in E. exfalso. apply Hx. rewrite E. apply nth_In. lia.
+    + rewrite IH by lia. reflexivity.
+Qed.
+
+Theorem explicit_symbols_preserved (given free_order : list nat) (Q : npoly W) n :
+  given <> [] -> NoDup given ->
+  resolve_symbols given free_order = given /\
+  sympy_named_series W given free_order Q n =
+    (if vzerob W (Q (powers_of given n)) then None else Some (EV n (Q (powers_of given n)))) /\
+  forall i, i < length given -> powers_of given n (nth i given 0) = nth i n 0.
+Proof.
+  intros Hne Hnd.
+  assert (Hr : resolve_symbols given free_order = given) by (destruct given; [congruence|reflexivity]).
+  split; [exact Hr|split].
+  - unfold sympy_named_series. rewrite Hr, sympy_to_series_spec. reflexivity.
+  - intros i Hi. unfold powers_of. rewrite index_of_nth by assumption. reflexivity.
+Qed.
+
+(* ------------------------------------------------------------------ *)
 (* what each container denotes, and the normal form *)
 
 Definition vz (o : option V) : V := match o with Some v => v | None => vzero W end.
